@@ -443,7 +443,7 @@ def loop_values(loop, env):
         c = int(h.c) if h.c is not None else 1
         if c == 0:
             raise RefModelError("zero step")
-        raw = [N.from_int(i) for i in range(a, b, c)]
+        raw = [N.from_int_literal(i) for i in range(a, b, c)]
     else:
         raw = [value_of(v, env) for v in h.vals]
     for v in raw:
